@@ -6,6 +6,9 @@ import random
 import shutil
 
 
+FIXED_MTIME = 1700000000
+
+
 def rng_for(seed, prop, i, salt=''):
     h = hashlib.sha256(('%d|%s|%d|%s' % (seed, prop, i, salt)).encode()).digest()
     return random.Random(int.from_bytes(h[:16], 'big'))
@@ -68,6 +71,7 @@ def restore(root, snap):
         os.makedirs(os.path.dirname(p), exist_ok=True)
         with open(p, 'wb') as fh:
             fh.write(data)
+        os.utime(p, (FIXED_MTIME, FIXED_MTIME))      # the simulated disk has no wall clock: every file carries the same stamp
     return snapshot(root)
 
 
